@@ -98,6 +98,7 @@ void runFs(const Scn &scn, Out &out)
     if (tcp) tcp->log = nullptr;
     QObject::disconnect(sock, nullptr, nullptr, nullptr);
     if (sock) delete sock.data();
+    if (tcp) delete tcp.data();      // a scenario without `new`: nothing took ownership of the transport
     eventTurn();
     eventTurn();
 }
